@@ -266,11 +266,15 @@ PROPS["C07"] = dict(
 
 PROPS["C04"] = dict(
     family="ttest", specdir="ttest",
-    technique="TLA+ definitions of the four t statistics (sign and exact rational T^2), degrees of freedom and error cases, with swap / affine-invariance / Welch-Satterthwaite-bound laws checked by TLC over all small integer samples; replayed into the real tests and MeanCI with P evaluated from the exact statistic through an independent Student-t CDF",
-    level_text="TLC enumerates every pair (x1 a bag, x2 a sequence) of 0..4 values over {-2,0,1} (thorough 0..5 over {-2,0,1,3}) and computes sign, T^2 and DoF of the pooled, Welch, paired and one-sample (mu0 in {0, 1/2, -3}) tests exactly, checking that swapping negates T, that x -> a x + b leaves T^2 and DoF unchanged, the Welch-Satterthwaite bounds and pooled = Welch for equal sizes and variances; the binder runs the real tests under 4 affine maps (offsets to 1e6, scale 1/8..4096) for the three alternatives and the swapped call, compares N1, N2, T, DoF, the documented errors and P against the Student-t CDF from gonum's incomplete beta, and checks MeanCI (mean, symmetry, zero / infinite width, NaN for empty input, Student-t content of the interval = c)",
+    technique="TLA+ definitions of the four t statistics (sign and exact rational T^2), degrees of freedom and error cases, with swap / affine-invariance / Welch-Satterthwaite-bound laws checked by TLC over all small integer samples; replayed into the real tests and MeanCI with P evaluated from the exact statistic through an independent Student-t CDF; recorded histories on real-valued samples of up to 40 (thorough 200) values validated by TTestTrace.tla in exact BigInt rational arithmetic",
+    level_text="TLC enumerates every pair (x1 a bag, x2 a sequence) of 0..4 values over {-2,0,1} (thorough 0..5 over {-2,0,1,3}) and computes sign, T^2 and DoF of the pooled, Welch, paired and one-sample (mu0 in {0, 1/2, -3}) tests exactly, checking that swapping negates T, that x -> a x + b leaves T^2 and DoF unchanged, the Welch-Satterthwaite bounds and pooled = Welch for equal sizes and variances; the binder runs the real tests under 4 affine maps (offsets to 1e6, scale 1/8..4096) for the three alternatives and the swapped call, compares N1, N2, T, DoF, the documented errors and P against the Student-t CDF from gonum's incomplete beta, and checks MeanCI (mean, symmetry, zero / infinite width, NaN for empty input, Student-t content of the interval = c). TTestTrace.tla: the driver grows two samples of scaled-integer reals (offset/spread up to 2^13, scales 2^-30..2^3, constant samples, equal and unequal sizes) and logs every test (4 kinds x 3 alternatives x swapped x mu0) and MeanCI call (10 confidence levels incl. <= 0 and >= 1); TLC recomputes means and variances exactly and requires |T se - d| <= 2^-26 |d| + 2^-40 max|x| (squared form), the sign of T, integer DoF exactly, Welch-Satterthwaite DoF to 2^-26, P by case analysis on the alternative over F(DoF,T) (harness-evaluated independent CDF) to 2^-29, the documented error otherwise, N1/N2/AltHypothesis, inputs bit-identical, and for MeanCI the exact mean, symmetry and w^2 n = tq^2 var",
     level_note="Trusted: TLC, binder comparison code, gonum mathext.RegIncBeta for the Student-t CDF (independent of mathx.BetaInc). Tolerance on T and DoF: max(1e-9, 4096 n eps kappa), kappa = max|x| / scale. Errors are checked only where unambiguous (empty sample, length mismatch, all-constant data, a one-element sample for Welch and paired).",
     stages=[dict(name="gen", kind="gen", module="TTest.tla", cfg="TTest_gen.cfg",
-                 consts=dict(Vals={"quick": "ValsQuick", "thorough": "ValsThorough"}, MaxLen={"quick": 4, "thorough": 5}, Reps={"quick": "{1, 9}", "thorough": "{1, 3, 8}"}))],
+                 consts=dict(Vals={"quick": "ValsQuick", "thorough": "ValsThorough"}, MaxLen={"quick": 4, "thorough": 5}, Reps={"quick": "{1, 9}", "thorough": "{1, 3, 8}"})),
+            dict(name="trace", kind="trace", module="TTestTrace.tla", cfg="TTestTrace.cfg",
+                 record_args={"quick": ["-n", 48, "-max", 40], "thorough": ["-n", 2400, "-max", 40]}, shards={"quick": 8, "thorough": 16}),
+            dict(name="trace200", kind="trace", module="TTestTrace.tla", cfg="TTestTrace.cfg", tiers=["thorough"],
+                 record_args=["-n", 160, "-max", 200], shards=16)],
 )
 
 PROPS["C08"] = dict(
